@@ -13,5 +13,10 @@ for d in seeded/*/; do
   if ! git -C "$W/wt" apply "$PWD/$d/patch.diff" 2>/dev/null; then echo "$n: patch does not apply"; continue; fi
   out=$(VERIF_REPO="$W/wt" ./check "$p" --no-evidence 2>&1); rc=$?
   by=$(echo "$out" | grep -E "^  harness=" | sed 's/.*harness=\([a-z_0-9]*\).*/\1/' | sort -u | tr '\n' ' ')
-  echo "$n: rc=$rc $( [ $rc = 1 ] && echo detected || echo NOT-DETECTED ) by: $by"
+  note=""
+  if [ $rc != 1 ]; then
+    # does the change still break the property on this tree? (a later repair may have neutralised it)
+    if (cd "$W/wt" && PYTHONPATH="$W/wt" timeout 600 /venv/bin/python "$OLDPWD/$d/demo.py" >/dev/null 2>&1); then note=" (its own demo passes on this tree: neutralised)"; fi
+  fi
+  echo "$n: rc=$rc $( [ $rc = 1 ] && echo detected || echo NOT-DETECTED )$note by: $by"
 done
